@@ -201,7 +201,8 @@ func HTMLDoc(r *rand.Rand, o HTMLOpts) (doc string, toks []XTok) {
 	}
 	rawContent := func(name string) (string, bool) {
 		alpha := []string{"a", "b", " ", "\n", "x=1;", "<", ">", "</", "<b>", "</b>", "<!", "&amp;", "\"", "'", "/", "é", "if(a<b)", "</" + name + "x>", "</" + name[:len(name)-1] + ">", "</ " + name + ">",
-			"</" + name + "1>", "</" + name + "-x>", "</" + name + "_", "<" + name + ">", "</div>", "<!-- c -->", "-->", "--"}
+			"</" + name + "1>", "</" + name + "-x>", "</" + name + "_", "<" + name + ">", "</div>", "<!-- c -->", "-->", "--",
+			"</feComponentTransfer>", "</aVeryLongClosingTagNameOfThirtyNineChars>", "</" + name + "abcdefghijklmnop>"}
 		for _, other := range htmlRaw {
 			if other != name {
 				alpha = append(alpha, "</"+other+">")
